@@ -491,7 +491,10 @@ def pack2d(RVARA, verbose=False):
     SEXP = 0.0
     # compute the required scaling exponent
     if RMAX != 0.0:
-        SEXP = LOG(RMAX) / LOG(np.float32(2.))
+        # log2 is exact for powers of two; the float32 ratio of natural
+        # logarithms is not (log(2**15)/log(2) = 14.999999 made NEXP one too
+        # small, so that a difference of -2**15 no longer fit into a byte)
+        SEXP = np.log2(RMAX)
 
     NEXP = INT(SEXP)
     # positive or whole number scaling round up for lower precision
